@@ -665,6 +665,15 @@ func init() {
 			}
 			return ""
 		},
+		// mutexes: execution is sequential, so a lock never blocks; what is recorded is which
+		// locks were held at each access (footprintsDisjoint)
+		"(*sync.Mutex).Lock":      func(e *Engine, _ *ssa.Function, a []Value) Value { e.held[a[0].(*Cell).ID]++; return nil },
+		"(*sync.Mutex).Unlock":    func(e *Engine, _ *ssa.Function, a []Value) Value { e.unlock(a[0].(*Cell).ID); return nil },
+		"(*sync.Mutex).TryLock":   func(e *Engine, _ *ssa.Function, a []Value) Value { e.held[a[0].(*Cell).ID]++; return true },
+		"(*sync.RWMutex).Lock":    func(e *Engine, _ *ssa.Function, a []Value) Value { e.held[a[0].(*Cell).ID]++; return nil },
+		"(*sync.RWMutex).Unlock":  func(e *Engine, _ *ssa.Function, a []Value) Value { e.unlock(a[0].(*Cell).ID); return nil },
+		"(*sync.RWMutex).RLock":   func(e *Engine, _ *ssa.Function, a []Value) Value { e.held[a[0].(*Cell).ID]++; return nil },
+		"(*sync.RWMutex).RUnlock": func(e *Engine, _ *ssa.Function, a []Value) Value { e.unlock(a[0].(*Cell).ID); return nil },
 		"(*sync.WaitGroup).Go": func(e *Engine, _ *ssa.Function, a []Value) Value {
 			// default: run the task immediately (one sequential schedule). With env wg.defer
 			// the tasks are queued and Wait runs them, in swapped order if env wg.swap is
@@ -1105,37 +1114,41 @@ func stubParseUint(e *Engine, fn *ssa.Function, a []Value) Value {
 // ---- native calls by reflection (pure library functions on fully concrete arguments) ----
 
 var nativeFuncs = map[string]any{
-	"strings.Join":                   strings.Join,
-	"strings.Cut":                    strings.Cut,
-	"strings.HasPrefix":              strings.HasPrefix,
-	"strings.HasSuffix":              strings.HasSuffix,
-	"strings.Contains":               strings.Contains,
-	"strings.Index":                  strings.Index,
-	"strings.IndexByte":              strings.IndexByte,
-	"strings.LastIndexByte":          strings.LastIndexByte,
-	"strings.Repeat":                 strings.Repeat,
-	"strings.TrimSpace":              strings.TrimSpace,
-	"strings.TrimPrefix":             strings.TrimPrefix,
-	"strings.TrimSuffix":             strings.TrimSuffix,
-	"strings.Split":                  strings.Split,
-	"strings.Fields":                 strings.Fields,
-	"strings.ReplaceAll":             strings.ReplaceAll,
-	"strings.Replace":                strings.Replace,
-	"strings.Count":                  strings.Count,
-	"strings.EqualFold":              strings.EqualFold,
-	"strconv.Atoi":                   strconv.Atoi,
-	"strconv.FormatInt":              strconv.FormatInt,
-	"strconv.ParseUint":              strconv.ParseUint,
-	"unicode.ToUpper":                unicode.ToUpper,
-	"unicode.ToLower":                unicode.ToLower,
-	"unicode.IsUpper":                unicode.IsUpper,
-	"unicode.IsLower":                unicode.IsLower,
-	"unicode.IsLetter":               unicode.IsLetter,
-	"unicode.IsDigit":                unicode.IsDigit,
-	"unicode.IsSpace":                unicode.IsSpace,
-	"unicode/utf8.RuneCountInString": utf8.RuneCountInString,
-	"unicode/utf8.RuneLen":           utf8.RuneLen,
-	"unicode/utf8.ValidString":       utf8.ValidString,
+	"strings.Join":                        strings.Join,
+	"strings.Cut":                         strings.Cut,
+	"strings.HasPrefix":                   strings.HasPrefix,
+	"strings.HasSuffix":                   strings.HasSuffix,
+	"strings.Contains":                    strings.Contains,
+	"strings.Index":                       strings.Index,
+	"strings.IndexByte":                   strings.IndexByte,
+	"strings.LastIndexByte":               strings.LastIndexByte,
+	"strings.Repeat":                      strings.Repeat,
+	"strings.TrimSpace":                   strings.TrimSpace,
+	"strings.TrimPrefix":                  strings.TrimPrefix,
+	"strings.TrimSuffix":                  strings.TrimSuffix,
+	"strings.Split":                       strings.Split,
+	"strings.Fields":                      strings.Fields,
+	"strings.ReplaceAll":                  strings.ReplaceAll,
+	"strings.Replace":                     strings.Replace,
+	"strings.Count":                       strings.Count,
+	"strings.EqualFold":                   strings.EqualFold,
+	"strconv.Atoi":                        strconv.Atoi,
+	"strconv.FormatInt":                   strconv.FormatInt,
+	"strconv.ParseUint":                   strconv.ParseUint,
+	"unicode.ToUpper":                     unicode.ToUpper,
+	"unicode.ToLower":                     unicode.ToLower,
+	"unicode.IsUpper":                     unicode.IsUpper,
+	"unicode.IsLower":                     unicode.IsLower,
+	"unicode.IsLetter":                    unicode.IsLetter,
+	"unicode.IsDigit":                     unicode.IsDigit,
+	"unicode.IsSpace":                     unicode.IsSpace,
+	"unicode/utf8.RuneCountInString":      utf8.RuneCountInString,
+	"unicode/utf8.RuneLen":                utf8.RuneLen,
+	"unicode/utf8.ValidString":            utf8.ValidString,
+	"unicode/utf8.DecodeRuneInString":     utf8.DecodeRuneInString,
+	"unicode/utf8.DecodeLastRuneInString": utf8.DecodeLastRuneInString,
+	"unicode/utf8.ValidRune":              utf8.ValidRune,
+	"unicode/utf8.FullRuneInString":       utf8.FullRuneInString,
 }
 
 func (e *Engine) callNative(name string, f any, fn *ssa.Function, args []Value) Value {
@@ -1224,13 +1237,56 @@ func (e *Engine) fromReflect(name string, o reflect.Value) Value {
 
 func (e *Engine) footprintsDisjoint(a, b int) Value {
 	fa, fb := e.foot[a], e.foot[b]
+	la, lb := e.lockFoot[a], e.lockFoot[b]
+	conflict := func(id int) Value {
+		e.lastConflict = id
+		return false
+	}
+	// unsynchronised against unsynchronised
 	for id, m := range fa {
 		if m2, ok := fb[id]; ok && (m&2 != 0 || m2&2 != 0) {
-			e.lastConflict = id
-			return false
+			return conflict(id)
+		}
+	}
+	// unsynchronised against locked: the lock does not help
+	for id, m := range fa {
+		if x := lb[id]; x != nil && (m&2 != 0 || x.write) {
+			return conflict(id)
+		}
+	}
+	for id, m := range fb {
+		if x := la[id]; x != nil && (m&2 != 0 || x.write) {
+			return conflict(id)
+		}
+	}
+	// locked against locked: ordered by a lock both sides always held, otherwise a conflict.
+	// (Accesses ordered by a common lock are not a data race; whether their order shows in the
+	// result is decided by running the tasks in both orders.)
+	for id, x := range la {
+		y := lb[id]
+		if y == nil || !(x.write || y.write) {
+			continue
+		}
+		common := false
+		for l := range x.locks {
+			if y.locks[l] {
+				common = true
+				break
+			}
+		}
+		if !common {
+			return conflict(id)
 		}
 	}
 	return true
+}
+
+func (e *Engine) unlock(id int) {
+	if e.held[id] <= 1 {
+		delete(e.held, id)
+	} else {
+		e.held[id]--
+	}
 }
 
 // methodOf finds the method `name` in the method set of t (nil if none).
